@@ -12,7 +12,14 @@ fn g_cfg(r: &mut Rng, mode: &str) -> (Cfg, Vec<u64>) {
     let retries = r.pick(&[1usize, 2, 3]);
     // rng script: small ids so that collisions (with live flows, with the peer's choice, zero) happen
     let n = if mode.contains("collide") { 12 } else { r.below(6) as usize };
-    let rng: Vec<u32> = (0..n).map(|_| r.pick(&[0u32, 1, 1, 2, 2, 3, 5, 7])).collect();
+    let mut rng: Vec<u32> = (0..n).map(|_| r.pick(&[0u32, 1, 1, 2, 2, 3, 5, 7])).collect();
+    if mode.contains("reuse") {
+        // the same id drawn again and again: ids are reused right after they were released
+        let x = r.pick(&[1u32, 2, 3]);
+        for v in rng.iter_mut().take(4) {
+            *v = x;
+        }
+    }
     let mut enc = vec![u64::from(rwnd), u64::from(threshold), accept_q as u64, dgram_q as u64, bind_q as u64, retries as u64, rng.len() as u64];
     enc.extend(rng.iter().map(|&x| u64::from(x)));
     (Cfg { rwnd, threshold, accept_q, dgram_q, bind_q, retries, rng }, enc)
@@ -111,7 +118,7 @@ pub fn one_script(r: &mut Rng, nlabels: usize, mode: &str) -> (Vec<u64>, Vec<u64
                     let mut l = vec![10, eu, r.pick(&[0u64, 80, 65535])];
                     let host: Vec<u8> = (0..r.pick(&[0usize, 1, 3])).map(|_| r.pick(b"abc.")).collect();
                     lp(&mut l, &host);
-                    cands.push((3, l));
+                    cands.push((if mode.contains("reuse") { 8 } else { 3 }, l));
                 }
                 for k in pending {
                     cands.push((3, vec![11, eu, k as u64]));
@@ -168,8 +175,9 @@ pub fn one_script(r: &mut Rng, nlabels: usize, mode: &str) -> (Vec<u64>, Vec<u64
                 }
                 cands.push((1, l));
                 cands.push((5, vec![15, eu, su, r.pick(&[1u64, 2, 8, 0])]));
-                cands.push((1, vec![16, eu, su]));
-                cands.push((1, vec![17, eu, su]));
+                let wc = if mode.contains("reuse") { 4 } else { 1 };
+                cands.push((wc, vec![16, eu, su]));
+                cands.push((wc, vec![17, eu, su]));
                 if w.link_len(1 - e) > 0 {
                     cands.push((1, vec![33, eu, su]));
                 }
